@@ -18,8 +18,11 @@ void __real_free(void*);
 static struct { char* base; size_t map; char* user; size_t n; int live; } EF[256];
 static int NEF;
 static int ef_find(void* p) { for (int i = 0; i < NEF; ++i) if (EF[i].user == (char*)p) return i; return -1; }
+static char* CBUF_GUARD_FWD(void);
+static void cbuf_make(void);
 static const char* ef_classify(void* addr, char* detail, size_t n)
 {
+    if (CBUF_GUARD_FWD() && (char*)addr >= CBUF_GUARD_FWD() && (char*)addr < CBUF_GUARD_FWD() + 4096) { snprintf(detail, n, "the caller's image buffer was accessed beyond its end:"); return "C17:caller-buffer-overflow"; }
     for (int i = 0; i < NEF; ++i)
         if ((char*)addr >= EF[i].base && (char*)addr < EF[i].base + EF[i].map) {
             snprintf(detail, n, "camera image buffer #%d (%zu bytes) %s:", i, EF[i].n, EF[i].live ? "accessed beyond its end" : "accessed after it was released by a re-configuration");
@@ -91,6 +94,7 @@ static void cam_setup_common(void)
 {
     logger_set_reporter(reporter_);
     vs_crash_classifier = ef_classify;
+    cbuf_make();
     P_TRIG = (int)vs_param("trigger", 0);
     P_FRAMES = (int)vs_param("frames", 2);
     P_EXPOSURE_MS = (double)vs_param("exposure", 4);
@@ -127,17 +131,41 @@ static uint64_t g_start_ns[2];
 static int g_streamer_tid[2];
 static int g_stop_calls;
 
+// the caller's image buffer: `bufbytes` bytes (default 64) ending at a PROT_NONE page, filled with 0xEE before every frame call
+static uint8_t* CBUF; static size_t CBUF_N; static char* CBUF_GUARD;
+static void cbuf_make(void)
+{
+    CBUF_N = (size_t)vs_param("bufbytes", 64);
+    size_t pages = (CBUF_N + 4095) / 4096;
+    char* base = mmap(0, (pages + 1) * 4096, PROT_READ | PROT_WRITE, MAP_PRIVATE | MAP_ANONYMOUS, -1, 0);
+    if (base == MAP_FAILED) { fprintf(stderr, "harness: mmap failed\n"); exit(2); }
+    CBUF_GUARD = base + pages * 4096;
+    mprotect(CBUF_GUARD, 4096, PROT_NONE);
+    CBUF = (uint8_t*)CBUF_GUARD - CBUF_N;
+}
 static void do_get_frames(int k)
 {
-    uint8_t buf[64];
+    uint8_t* const buf = CBUF;
     for (int i = 0; i < k; ++i) {
         struct ImageInfo info;
         memset(&info, 0, sizeof info);
         info.hardware_frame_id = ~0ull;
-        size_t nb = sizeof buf;
+        size_t nb = CBUF_N;
+        if (i == 0 && g_run == 0 && vs_param("failfirst", 0)) nb = 0; // a frame call with a buffer that is too small: it fails
+        memset(buf, 0xEE, CBUF_N);
         enum DeviceStatusCode rc = camera_get_frame(CAM, buf, &nb, &info);
-        if (rc != Device_Ok) { vs_note("get_frame -> error (camera not running any more)"); return; }
+        if (rc != Device_Ok) { vs_note("get_frame -> error (camera not running any more, or buffer too small)"); return; }
         if (info.hardware_frame_id == ~0ull) { vs_note("get_frame -> no frame (stopped)"); return; }
+        {
+            // C17: the call fills exactly the image it reports: nothing beyond it is written, its tail is not left unwritten
+            size_t n = bytes_of_image(&info.shape);
+            if (n > CBUF_N) vs_fail("C17:frame-larger-than-buffer", "get_frame reports an image of %zu bytes in a buffer of %zu", n, CBUF_N);
+            for (size_t j = n; j < CBUF_N && j < n + 256; ++j)
+                if (buf[j] != 0xEE) vs_fail("C17:frame-call-wrote-beyond-reported-image", "get_frame reports an image of %zu bytes (%ux%u) but byte %zu of the caller's buffer was written too", n, info.shape.dims.width, info.shape.dims.height, j);
+            int untouched = 0;
+            for (size_t j = n; j-- > 0 && n - j <= 16;) untouched += buf[j] == 0xEE;
+            if (n >= 16 && untouched == 16) vs_fail("C17:frame-not-filled", "get_frame reports an image of %zu bytes (%ux%u) but the last 16 bytes of it were never written", n, info.shape.dims.width, info.shape.dims.height);
+        }
         struct run_log* r = &RUNS[g_run];
         vs_note("get_frame -> id %llu (triggers so far %d)", (unsigned long long)info.hardware_frame_id, g_triggers[g_run]);
         if (r->nframes < 8) { r->ids[r->nframes] = info.hardware_frame_id; r->triggers_at_return[r->nframes] = g_triggers[g_run]; r->t_return_ns[r->nframes] = vs_now_ns(); r->nframes++; }
@@ -156,6 +184,7 @@ static void do_get_frames(int k)
             vs_fail("C18:frame-count-not-restarted", "run %d: frame id %llu with only %d triggers issued in this run", g_run, (unsigned long long)info.hardware_frame_id, g_triggers[g_run]);
     }
 }
+static char* CBUF_GUARD_FWD(void) { return CBUF_GUARD; }
 static void caller_thread(void* a) { (void)a; do_get_frames(P_FRAMES); }
 static void controller_thread(void* a)
 {
@@ -184,6 +213,7 @@ static void c18_run(void)
     camera_stop(CAM);
     if (vs_param("restart", 1)) {
         g_run = 1;
+        if (vs_param("failfirst", 0)) apply_props((uint32_t)vs_param("w", 1), (uint32_t)vs_param("h", 1), (int)vs_param("type", SampleType_u8), (int)vs_param("binning", 1)); // after a failed frame call the camera awaits configuration
         g_start_ns[1] = vs_now_ns();
         g_streamer_tid[1] = vs_thread_count();
         if (camera_start(CAM) != Device_Ok) vs_fail("harness:camera-restart", "camera_start failed on restart");
@@ -221,6 +251,10 @@ static void c17r_run(void)
     int tc = vs_spawn(c17r_caller, 0, "caller");
     vs_sleep_ms(1);
     apply_props((uint32_t)vs_param("w2", 64), (uint32_t)vs_param("h2", 64), (int)vs_param("type2", SampleType_u16), (int)vs_param("binning2", 1));
+    if (P_TRIG) { // frames only on a software trigger: the caller's frame call is parked across the re-configuration, then released
+        for (int i = 0; i < P_FRAMES; ++i) { g_triggers[0]++; camera_execute_trigger(CAM); vs_sleep_ms(P_EXPOSURE_MS + 1); }
+        camera_stop(CAM); // releases a frame call that is still pending
+    }
     vs_join(tc);
     camera_stop(CAM);
 }
